@@ -346,6 +346,9 @@ func (c *Collection) WriteCas(key string, exp Exp, cas CAS, val any, opt sgbucke
 		}
 		revSeqNo++
 		isTombstone := (raw == nil) // a write without a body makes (or keeps) the doc a tombstone
+		if isTombstone {
+			exp = 0 // ... and a deletion clears the expiry, like Delete and Remove do
+		}
 		exp = absoluteExpiry(exp)
 		var sql string
 		if (opt & sgbucket.Append) != 0 {
